@@ -18,7 +18,8 @@
   response for it is dropped.
   Scheduling is left open: executor jobs and loop callbacks may run in any order and at any
   later time (the real loop is FIFO; every FIFO schedule is one of the schedules here).
-  `safe_mode` is the default (False).
+  `AccessoryDriver.safe_mode` is a field of the state (default False): with it set, `finish_pair`
+  does not touch the advertisement at all.
 
   Application side (driver API, no request and hence no response involved):
     * `AccessoryDriver.config_changed()`  — `state.increment_config_version()`, persist,
@@ -126,10 +127,12 @@ structure Sys where
   sessions : List (Nat × Client)
   /-- connections whose transport was closed by `_close_unpaired_sessions` -/
   closed : List Nat
+  /-- `AccessoryDriver.safe_mode` -/
+  safeMode : Bool := false
 
-def init (info : Info) (p : Pairings) (sessions : List (Nat × Client)) : Sys :=
+def init (info : Info) (p : Pairings) (sessions : List (Nat × Client)) (safe : Bool := false) : Sys :=
   { info, paired := p, nextRid := 0, log := [], deferred := [], execQ := [], loopQ := [],
-    sessions, closed := [] }
+    sessions, closed := [], safeMode := safe }
 
 /-- `handler.client_uuid` of connection `conn` -/
 def sessionOf (s : Sys) (conn : Nat) : Option Client :=
@@ -196,7 +199,9 @@ def step (s : Sys) : Step → Sys
   | .execRun i =>
     match s.execQ[i]? with
     | none => s
-    | some rid => { s with execQ := s.execQ.eraseIdx i, loopQ := s.loopQ ++ [some rid] }
+    | some rid =>
+      -- finish_pair: `if not self.safe_mode: self.update_advertisement()`
+      { s with execQ := s.execQ.eraseIdx i, loopQ := if s.safeMode then s.loopQ else s.loopQ ++ [some rid] }
   | .loopRun i =>
     match s.loopQ[i]? with
     | none => s
